@@ -457,15 +457,16 @@ def load_corpus(P: Prop):
     return cases
 
 
-def shrink_case(P: Prop, case, still_fails, budget=200):
+def shrink_case(P: Prop, case, still_fails, budget=200, budget_s=45.0):
     cur = case
     steps = 0
     improved = True
-    while improved and steps < budget:
+    t0 = time.time()
+    while improved and steps < budget and time.time() - t0 < budget_s:
         improved = False
         for cand in P.shrink(cur):
             steps += 1
-            if steps >= budget:
+            if steps >= budget or time.time() - t0 >= budget_s:  # long vectors: every attempt costs a model run
                 break
             try:
                 if still_fails(cand):
